@@ -41,6 +41,8 @@ func genApl(r *Rng, tier string) *Enc {
 	tag := r.Intn(5)
 	if r.Chance(25) {
 		tag = 8 // identity: a side-effect-free callback that returns the slice it was given
+	} else if r.Chance(15) {
+		tag = 9 // appends one element to its argument and returns the longer slice
 	}
 	if axis == 0 {
 		tag = r.Intn(8)
